@@ -569,3 +569,74 @@ package ast
 //@   ensures[wraps] istype(result, *filteredCursor) ==> as(result, *filteredCursor).wrapped == cursor && as(result, *filteredCursor).filter == filter
 //@   ensures[skips-only-rejected] cursor != nil ==> forall(j, old(curPos[cursor]) <= j && j < curPos[cursor] ==> !filt(filter, sel(curSeq[cursor], j)))
 //@   ensures[empty-when-exhausted] cursor == nil || old(curPos[cursor]) >= curLen[cursor] ==> istype(result, emptyCursor)
+
+// sliceSetCursor: enumerates the remaining elements of its slice front to back
+//@ func (*sliceSetCursor).IsValid
+//@   props C14 C10
+//@   pure
+//@   ensures[valid-iff] result == (len(cursor.values) > 0)
+//@ func (*sliceSetCursor).Current
+//@   props C14 C10
+//@   requires[valid] len(cursor.values) > 0
+//@   pure
+//@   ensures[first] result == cursor.values[0]
+//@ func (*sliceSetCursor).Next
+//@   props C14 C10
+//@   modifies cursor.values
+//@   ensures[drops-first] old(len(cursor.values)) > 0 ==> len(cursor.values) == old(len(cursor.values)) - 1 && forall(i, 0 <= i && i < len(cursor.values) ==> cursor.values[i] == old(cursor.values[i+1]))
+//@   ensures[exhausted-stays] old(len(cursor.values)) == 0 ==> len(cursor.values) == 0
+
+// unionSetCursor: one merge step. current is the head that comes first in the cursor's direction (either, when
+// equal), and exactly the cursors whose head was taken advance; nil once both inputs are exhausted.
+//@ typeinv unionSetCursor: self.fst != nil && self.snd != nil && ref(self.fst) != ref(self.snd) && 0 <= curPos[self.fst] && curPos[self.fst] <= curLen[self.fst] && 0 <= curPos[self.snd] && curPos[self.snd] <= curLen[self.snd]
+//@ func (*unionSetCursor).IsValid
+//@   props C14 C10
+//@   pure
+//@   ensures result == (cursor.current != nil)
+//@ func (*unionSetCursor).Current
+//@   props C14 C10
+//@   pure
+//@   ensures result == cursor.current
+//@ func (*unionSetCursor).Next
+//@   props C14 C10
+//@   modifies cursor.current, curPos[cursor.fst], curPos[cursor.snd]
+//@   ensures[both-exhausted] old(curPos[cursor.fst]) >= curLen[cursor.fst] && old(curPos[cursor.snd]) >= curLen[cursor.snd] ==> cursor.current == nil && curPos[cursor.fst] == old(curPos[cursor.fst]) && curPos[cursor.snd] == old(curPos[cursor.snd])
+//@   ensures[only-snd] old(curPos[cursor.fst]) >= curLen[cursor.fst] && old(curPos[cursor.snd]) < curLen[cursor.snd] ==> str(cursor.current) == curSeq[cursor.snd][old(curPos[cursor.snd])] && cursor.current != nil && curPos[cursor.snd] == old(curPos[cursor.snd]) + 1 && curPos[cursor.fst] == old(curPos[cursor.fst])
+//@   ensures[only-fst] old(curPos[cursor.fst]) < curLen[cursor.fst] && old(curPos[cursor.snd]) >= curLen[cursor.snd] ==> str(cursor.current) == curSeq[cursor.fst][old(curPos[cursor.fst])] && cursor.current != nil && curPos[cursor.fst] == old(curPos[cursor.fst]) + 1 && curPos[cursor.snd] == old(curPos[cursor.snd])
+//@   ensures[equal-heads] old(curPos[cursor.fst]) < curLen[cursor.fst] && old(curPos[cursor.snd]) < curLen[cursor.snd] && curSeq[cursor.fst][old(curPos[cursor.fst])] == curSeq[cursor.snd][old(curPos[cursor.snd])] ==> str(cursor.current) == curSeq[cursor.fst][old(curPos[cursor.fst])] && curPos[cursor.fst] == old(curPos[cursor.fst]) + 1 && curPos[cursor.snd] == old(curPos[cursor.snd]) + 1
+//@   ensures[fst-first] old(curPos[cursor.fst]) < curLen[cursor.fst] && old(curPos[cursor.snd]) < curLen[cursor.snd] && before(!cursor.forward, curSeq[cursor.fst][old(curPos[cursor.fst])], curSeq[cursor.snd][old(curPos[cursor.snd])]) ==> str(cursor.current) == curSeq[cursor.fst][old(curPos[cursor.fst])] && curPos[cursor.fst] == old(curPos[cursor.fst]) + 1 && curPos[cursor.snd] == old(curPos[cursor.snd])
+//@   ensures[snd-first] old(curPos[cursor.fst]) < curLen[cursor.fst] && old(curPos[cursor.snd]) < curLen[cursor.snd] && before(!cursor.forward, curSeq[cursor.snd][old(curPos[cursor.snd])], curSeq[cursor.fst][old(curPos[cursor.fst])]) ==> str(cursor.current) == curSeq[cursor.snd][old(curPos[cursor.snd])] && curPos[cursor.snd] == old(curPos[cursor.snd]) + 1 && curPos[cursor.fst] == old(curPos[cursor.fst])
+//@ func NewUnionSetCursor
+//@   props C14 C10
+//@   requires fst != nil && snd != nil && ref(fst) != ref(snd) && 0 <= curPos[fst] && curPos[fst] <= curLen[fst] && 0 <= curPos[snd] && curPos[snd] <= curLen[snd]
+//@   modifies curPos[fst], curPos[snd]
+//@   ensures result != nil && istype(result, *unionSetCursor)
+
+// treeCursor: in-order walk of an llrb tree with an explicit stack (safety only; the enumeration order is covered
+// by a bounded stand-in). TreeSet inserts only byteArrayComparable / reverseByteArrayComparable values.
+//@ typeinv treeCursor: forall(i, 0 <= i && i < len(self.stack) ==> self.stack[i] != nil)
+//@ func (*treeCursor).next
+//@   props C14 C10
+//@   requires node != nil
+//@   modifies cursor.stack, cursor.current
+//@   ensures cursor.current != nil
+//@ func (*treeCursor).Next
+//@   props C14 C10
+//@   requires[valid] cursor.current != nil
+//@   modifies cursor.stack, cursor.current
+//@ func (*treeCursor).IsValid
+//@   props C14 C10
+//@   pure
+//@   ensures result == (cursor.current != nil)
+//@ func (*treeCursor).Current
+//@   props C14 C10
+//@   requires[valid] cursor.current != nil
+//@   assume cursor.current != nil ==> istype(cursor.current.Elem, byteArrayWrapper)
+//@   pure
+//@ func NewTreeCursor
+//@   props C14 C10
+//@   requires tree != nil
+//@   pure
+//@   ensures result != nil
+//@ func (byteArrayWrapper).toBytes
+//@   pure
